@@ -143,6 +143,12 @@ func (n *normalizer) ptrArg(e ast.Expr) (ast.Expr, bool) {
 		if f.Name == "StreamFromArray" {
 			return call.Args[0], true
 		}
+		// any function of the repository whose body is the idiom itself: v := Collection(param); return &v
+		if fo, isF := n.info.ObjectOf(f).(*types.Func); isF && PtrWrapperDecl != nil {
+			if fd, fi := PtrWrapperDecl(fo); fd != nil && IsPtrWrapper(fi, fd) {
+				return call.Args[0], true
+			}
+		}
 	case *ast.SelectorExpr:
 		if f.Sel.Name == "FromArray" {
 			return call.Args[0], true
@@ -548,6 +554,47 @@ func (n *normalizer) stmt(s ast.Stmt) {
 	default:
 		n.emit(fmt.Sprintf("?%T;", s))
 	}
+}
+
+// PtrWrapperDecl gives the declaration (and its type information) of a function of the repository; set by the rule
+// that uses the normaliser.
+var PtrWrapperDecl func(*types.Func) (*ast.FuncDecl, *types.Info)
+
+// IsPtrWrapper: fd is `func F(param X) *C { v := C(param); return &v }` with C a slice/map collection over X's kind.
+func IsPtrWrapper(info *types.Info, fd *ast.FuncDecl) bool {
+	if fd == nil || fd.Recv != nil || fd.Body == nil || len(fd.Body.List) != 2 || fd.Type.Params.NumFields() != 1 || len(fd.Type.Params.List[0].Names) != 1 {
+		return false
+	}
+	prm := info.ObjectOf(fd.Type.Params.List[0].Names[0])
+	as, ok := fd.Body.List[0].(*ast.AssignStmt)
+	if !ok || as.Tok != token.DEFINE || len(as.Lhs) != 1 || len(as.Rhs) != 1 {
+		return false
+	}
+	v, ok := as.Lhs[0].(*ast.Ident)
+	conv, ok2 := as.Rhs[0].(*ast.CallExpr)
+	if !ok || !ok2 || len(conv.Args) != 1 {
+		return false
+	}
+	if tv, okT := info.Types[conv.Fun]; !okT || !tv.IsType() {
+		return false
+	}
+	to, from := info.TypeOf(conv.Fun), info.TypeOf(conv.Args[0])
+	if kindOf(to) != kindOf(from) || kindOf(to) != "slice" && kindOf(to) != "map" {
+		return false
+	}
+	if a, isI := conv.Args[0].(*ast.Ident); !isI || info.ObjectOf(a) != prm {
+		return false
+	}
+	ret, ok := fd.Body.List[1].(*ast.ReturnStmt)
+	if !ok || len(ret.Results) != 1 {
+		return false
+	}
+	u, ok := ret.Results[0].(*ast.UnaryExpr)
+	if !ok || u.Op != token.AND {
+		return false
+	}
+	r, ok := u.X.(*ast.Ident)
+	return ok && info.ObjectOf(r) == info.ObjectOf(v)
 }
 
 // NormalForm returns the canonical token list of fd's body.
